@@ -71,7 +71,7 @@ def showReads : Option (List Int) → String
 /-- earlier starts (`key` = "prior": cycles of a slow group — an earlier group of some of the devices, or the same group
 under the configuration of that time; "fprior": Python reads in the fast group): layout (`assign` per variable), frame,
 statements; all DeviceVars zero -/
-def earlierOf (j : Json) (key : String) (reads : Bool) (vars : List Linked) (ndv : Nat) : Option (List Earlier) :=
+def earlierOf (j : Json) (key : String) (reads : Bool) (vars : List Linked) (ndv : Nat) (generated : Bool := false) : Option (List Earlier) :=
   match field j key with
   | none => some []
   | some p => do
@@ -85,7 +85,7 @@ def earlierOf (j : Json) (key : String) (reads : Bool) (vars : List Linked) (ndv
       let ops ← (← fArr e "ops").mapM opOf
       let frame ← fBytes e "frame"
       let vars' := (vars.zip assigns).map fun (l, a) => { l with assign := a }
-      pure { vars := vars', st := ⟨frame, List.replicate ndv 0⟩, ops := ops, reads := reads }
+      pure { vars := vars', st := ⟨frame, List.replicate ndv 0⟩, ops := ops, reads := reads, generated := generated }
 
 def step (j : Json) : Option String := do
   let data ← fBytes j "frame"
@@ -102,9 +102,12 @@ def step (j : Json) : Option String := do
     match vars.mapM (fun l => start l.assign l.var), vars.mapM (fun l => progAddr l.assign l.var) with
     | some ss, some as =>
       let fresh := List.replicate vars.length PvCache.empty
-      match earlierOf j "prior" false vars dvs.length, earlierOf j "fprior" true vars dvs.length with
-      | none, _ | _, none => pure "prior-error"
-      | some hist, some fhist =>
+      match earlierOf j "prior" false vars dvs.length, earlierOf j "fprior" true vars dvs.length,
+            earlierOf j "gprior" false vars dvs.length true with
+      | none, _, _ | _, none, _ | _, _, none => pure "prior-error"
+      | some hist, some fhist0, some ghist =>
+        -- the fast group's objects: earlier program generations, then the Python reads of the earlier starts
+        let fhist := ghist ++ fhist0
         let caches := historyCaches fresh hist
         -- the Python path as the code runs it (accessors cached on the PacketVar objects)
         let py := pyRunC vars ⟨⟨data, dvs.map (·.2)⟩, caches⟩ ops
